@@ -9,7 +9,7 @@ A spec is
    'cells_as_int': bool  (tree route lists numeric-looking ids as JSON integers; the code str()s them)
    'x':      {'kind': 'raw'|'log2', 'dtype', 'seed', 'max_count', 'density', 'rows': [row kind per cell]} or {'values': [[...]], 'kind', 'dtype'}
    'parts':  [ {'route': 'tree'|'columns'|'rows', 'files': [{'enc', 'rows': [canonical cell indices]}],
-                'rows_at_a_time', 'n_processors', 'tmp_dir': bool} ... ]   parts[0] is the baseline, the others are re-layouts of the same cells
+                'rows_at_a_time', 'n_processors', 'tmp_dir': bool, 'copy_data_over': bool} ... ]   parts[0] is the baseline, the others are re-layouts of the same cells
              routes: 'tree' = file list + taxonomy naming cells; 'columns' = one file, obs label columns (only the labelled cells are in it);
                      'rows' = one file + taxonomy listing row numbers
    'datasets': None or [dataset index per cell]   (only labelled cells matter) -> per-dataset files -> merge
@@ -115,7 +115,8 @@ def _partition(draw, route, lab_idx, all_idx, max_files=4):
     return {'route': route, 'files': files,
             'rows_at_a_time': draw(st.integers(1, n_rows + 2)),
             'n_processors': draw(st.integers(1, 4)),
-            'tmp_dir': draw(st.integers(0, 3)) > 0}
+            'tmp_dir': draw(st.integers(0, 3)) > 0,
+            'copy_data_over': route == 'tree' and draw(st.integers(0, 3)) == 3}
 
 
 @st.composite
